@@ -12,7 +12,10 @@
 (*     "distinct" different stream bytes, same dictionary;                                *)
 (*   use[p]: the resource page p draws; the layout of the resource dictionaries (own,     *)
 (*   own with only the used resource under one common name, one shared indirect           *)
-(*   dictionary, inherited from the page tree root); duplicate content streams;           *)
+(*   dictionary, inherited from the page tree root, own dictionaries whose category        *)
+(*   sub-dictionary (/Font or /XObject) is one shared indirect object while the pages use  *)
+(*   different entries of it - without and with a /Resources entry lacking that category   *)
+(*   on the ancestor node); duplicate content streams;                                     *)
 (*   unreferenced objects; optimizer switches.                                            *)
 (* Class(r) is the appearance of a resource: resources of different classes look          *)
 (* different, so a page must show Class(use[p]) before and after every Optimize step.     *)
@@ -36,7 +39,7 @@ Dom(d, s) ==
     [] d = "nres"       -> 1..MaxRes
     [] d = "rel"        -> {f \in [1..s.nres -> Rels] : f[1] = "equal"}     \* resource 1 is the base
     [] d = "use"        -> [1..s.np -> 1..s.nres]
-    [] d = "layout"     -> {"own", "ownmin", "shared", "inherited"}
+    [] d = "layout"     -> {"own", "ownmin", "shared", "inherited", "sharedsub", "sharedsubanc"}
     [] d = "dupcontent" -> BOOLEAN
     [] d = "unref"      -> BOOLEAN
     [] d = "optdupcs"   -> BOOLEAN      \* conf.OptimizeDuplicateContentStreams
